@@ -572,6 +572,56 @@ def main(a: int) -> int:
         y = x + w2
 ''')
 
+P("err_maybe_undefined_used_in_three_blocks", '''
+@guppy
+def main(b: bool, c: bool) -> int:
+    if b:
+        x = 1
+    if c:
+        y = x + 1
+    else:
+        y = x + 2
+    z = x + y
+    return z
+''')
+P("err_maybe_undefined_used_in_loop_and_after", '''
+@guppy
+def main(b: bool, n: int) -> int:
+    if b:
+        x = 1
+    s = 0
+    while n > 0:
+        if n == 3:
+            s += x
+        else:
+            s -= x
+        n -= 1
+    return s + x
+''')
+P("err_two_maybe_undefined_used_in_several_blocks", '''
+@guppy
+def main(b: bool, c: bool) -> int:
+    if b:
+        u = 1
+        v = 2
+    if c:
+        w = v + u
+    else:
+        w = u - v
+    return w + v + u
+''')
+P("err_leak_used_in_two_later_blocks", '''
+@guppy
+def main(b: bool, c: bool) -> None:
+    q = qubit()
+    if b:
+        discard(q)
+    if c:
+        h(q)
+    else:
+        x(q)
+    discard(q)
+''')
 P("ok_dead_after_both_returns", '''
 @guppy
 def main(b: bool) -> int:
@@ -731,7 +781,9 @@ def part1_worklists(ctx):
         for key in ("states", "transitions", "leaves", "explored_invocations", "thunk_runs", "cpu"):
             cov[key] += r[key]
         cov["full" if r["k"] is None else "bounded"] += 1
-        cov["nontrivial"] += r["leaves"] > 1
+        # (since the analyses were made canonical, every order gives ONE analysis result, so "several
+        # distinct results reached the pipeline" can no longer serve as the measure of non-triviality)
+        cov["nontrivial"] += r["transitions"] >= r["states"]
         if r["crosscheck"] is not None:
             cov["crosschecked"] += 1
             if not r["crosscheck"]:
@@ -808,8 +860,8 @@ def run(ctx):
         "evaluations": p1["programs"],
         "distinct_nontrivial": p1["nontrivial"],
         "rule": "evaluation = one corpus program explored under all worklist orders (bounded as stated); "
-                "non-trivial = at least two distinct analysis results (variable order / evidence block "
-                "included) reached the rest of the pipeline",
+                "non-trivial = the explored state graph of the worklists branches (at least as many transitions "
+                "as states, i.e. several orders were really explored)",
         "samples": p1["samples"],
         "programs_accepted_under_every_order": p1["accepted"],
         "programs_rejected_under_every_order": p1["rejected"],
